@@ -201,6 +201,51 @@ func ruleCYCLE1(c *Ctx) {
 			return false
 		}
 		defs := defsOf(f.Info(), decl.Body(), v)
+		if len(defs) == 0 && decl.Obj != nil {
+			// the previous composition handed in as a parameter of a constructor function:
+			// every call of the constructor passes `X.marshal` of the arshaler its caller is wrapping
+			dsig := decl.Obj.Type().(*types.Signature)
+			for i := 0; i < dsig.Params().Len(); i++ {
+				if dsig.Params().At(i) != v {
+					continue
+				}
+				callers := callersOf(p, decl.Obj)
+				okAll := len(callers) > 0
+				for _, cf := range callers {
+					cdecl := cf
+					if d := p.enclosingDecl(cf); d != nil {
+						cdecl = d
+					}
+					InspectNoLit(cf.Body(), func(nd ast.Node) bool {
+						call, isCall := nd.(*ast.CallExpr)
+						if !isCall || Callee(cf.Info(), call) != decl.Obj || i >= len(call.Args) {
+							return true
+						}
+						sel, isSel := ast.Unparen(call.Args[i]).(*ast.SelectorExpr)
+						if !isSel || sel.Sel.Name != "marshal" {
+							okAll = false
+							return true
+						}
+						xo, _ := IdentObj(cf.Info(), sel.X).(*types.Var)
+						isParam := false
+						if cdecl.Obj != nil && xo != nil {
+							cs := cdecl.Obj.Type().(*types.Signature)
+							for j := 0; j < cs.Params().Len(); j++ {
+								if cs.Params().At(j) == xo {
+									isParam = true
+								}
+							}
+						}
+						if !isParam {
+							okAll = false
+						}
+						return true
+					})
+				}
+				return okAll
+			}
+			return false
+		}
 		if len(defs) != 1 {
 			return false
 		}
